@@ -315,6 +315,47 @@ class HarnessBroken(Exception):
     pass
 
 
+class CorrBroken(Exception):
+    """The implementation side could not be observed on some cases (it died, hung or garbled its output)."""
+    def __init__(self, msg, cases):
+        Exception.__init__(self, msg)
+        self.cases = cases
+
+
+def isolate_breaking_case(pid, mod, cases, rundir, profile, budget_s=240):
+    """Bisects a case list on which the implementation side fails down to a single case (or None)."""
+    t_end = time.time() + budget_s
+    old = os.environ.get("VERIF_HARNESS_TIMEOUT_S")
+    os.environ["VERIF_HARNESS_TIMEOUT_S"] = "60"
+    def bad(cs):
+        try:
+            run_both(pid, mod, cs, rundir, tag="isolate", profile=profile)
+            return False
+        except CorrBroken:
+            return True
+        except Exception:
+            return False
+    try:
+        cur = list(cases)
+        if not cur or not bad(cur):
+            return None
+        while len(cur) > 1 and time.time() < t_end:
+            half = len(cur) // 2
+            a, b = cur[:half], cur[half:]
+            if bad(a):
+                cur = a
+            elif bad(b):
+                cur = b
+            else:
+                return None      # needs an interaction of cases: not isolated
+        return cur[0] if len(cur) == 1 else None
+    finally:
+        if old is None:
+            os.environ.pop("VERIF_HARNESS_TIMEOUT_S", None)
+        else:
+            os.environ["VERIF_HARNESS_TIMEOUT_S"] = old
+
+
 def run_both(pid, mod, cases, rundir, tag="main", profile="release"):
     """Returns list of (case, impl_line, model_obs, verdict)."""
     low = pid.lower()
@@ -347,22 +388,27 @@ def run_both(pid, mod, cases, rundir, tag="main", profile="release"):
             for c in cases:
                 f.write(c + "\n")
     dexe = build_driver(getattr(mod, "DRIVER_PID", pid))
-    run_side(hexe, getattr(mod, "HARNESS_ARGS", []), cp, ip)
-    if not getattr(mod, "MARKED", False):
-        run_side(dexe, [cp, ip], cp, mp, stdin_cases=False)
+    try:
+        run_side(hexe, getattr(mod, "HARNESS_ARGS", []), cp, ip, timeout=int(os.environ.get("VERIF_HARNESS_TIMEOUT_S", "3000")))
+    except (RuntimeError, subprocess.TimeoutExpired) as e:
+        # the implementation side died or hung on these cases (abort, dead-lock, ...): the tie no longer checks
+        raise CorrBroken("the harness run against the implementation failed: %s" % str(e)[-1500:], cases[len(pre):])
     impl = open(ip, errors="replace").read().split("\n")
     if any(l.startswith("@@") for l in impl):
         # the code under test printed to stdout as well: keep only the marked observation lines
         impl = [l[2:] for l in impl if l.startswith("@@")]
         with open(ip, "w") as f:
             f.write("\n".join(impl) + "\n")
-        run_side(dexe, [cp, ip], cp, mp, stdin_cases=False)
-    model = open(mp).read().split("\n")
     if impl and impl[-1] == "":
         impl.pop()
+    if len(impl) != len(cases):
+        raise CorrBroken("the implementation side printed %d observation lines for %d cases (the code under test wrote to "
+                         "stdout, or a case killed the harness)" % (len(impl), len(cases)), cases[len(pre):])
+    run_side(dexe, [cp, ip], cp, mp, stdin_cases=False)
+    model = open(mp).read().split("\n")
     if model and model[-1] == "":
         model.pop()
-    if len(impl) != len(cases) or len(model) != len(cases):
+    if len(model) != len(cases):
         raise RuntimeError("line count mismatch: %d cases, %d impl, %d model" % (len(cases), len(impl), len(model)))
     res = []
     for c, i, m in list(zip(cases, impl, model))[len(pre):]:
@@ -464,10 +510,19 @@ def main_check(pid, argv):
 
     if args.replay:
         doc = json.load(open(args.replay))
-        case = doc["case"]
+        case = doc.get("case")
         if hasattr(mod, "replay"):
             return mod.replay(doc)
-        res = run_both(pid, mod, [case], rundir, tag="replay", profile=doc.get("profile", "release"))
+        if case is None:
+            print("this replay file names a broken tie, not a case:", doc.get("broken"))
+            print(doc.get("detail", doc.get("broken_obligations", "")))
+            return 1
+        try:
+            res = run_both(pid, mod, [case], rundir, tag="replay", profile=doc.get("profile", "release"))
+        except CorrBroken as e:
+            print("case:    ", case)
+            print("impl:     the implementation side fails on this case:", e)
+            return 1
         c, i, m, v = res[0]
         print("case:    ", c)
         print("impl:    ", i)
@@ -494,11 +549,18 @@ def main_check(pid, argv):
     profiles = getattr(mod, "PROFILES", ["release"])
     results = []
     broken = None
+    broken_case = None
     try:
         for prof in profiles:
             results += [(prof,) + r for r in run_both(pid, mod, cases, rundir, tag="main-" + prof, profile=prof)]
     except HarnessBroken as e:
         broken = str(e)
+    except CorrBroken as e:
+        broken = str(e)
+        culprit = isolate_breaking_case(pid, mod, e.cases, rundir, prof)
+        if culprit is not None:
+            broken += "\nisolated case (the implementation side fails on this case alone): " + culprit
+            broken_case = culprit
     known = [e for e in load_known() if e.get("property") == pid and e.get("kind") == "finding"]
     known_ids = {e["id"]: e for e in known}
     seen_known = {}
@@ -576,8 +638,11 @@ def main_check(pid, argv):
         # tree; no failing input was found by whatever part could still run
         n += 1
         path = os.path.join(rundir, "replay-%d.json" % n)
-        json.dump(dict(property=pid, kind="correspondence", broken="Corr_%s: the harness no longer compiles against the repository" % pid,
-                       compiler_output=(broken or DEGRADED[0])[-3000:], cases_still_run=len(results)), open(path, "w"), indent=1)
+        json.dump(dict(property=pid, kind="correspondence",
+                       broken=("Corr_%s: the implementation side can no longer be observed (it died, hung or garbled its output)" % pid) if (broken and not DEGRADED and "harness build failed" not in broken)
+                       else "Corr_%s: the harness no longer compiles against the repository" % pid,
+                       case=broken_case, detail=(broken or DEGRADED[0])[-3000:], cases_still_run=len(results),
+                       replay_cmd="./check %s --replay %s" % (pid, path), repo=REPO), open(path, "w"), indent=1)
         violations.append(("correspondence", path, "no-failing-input-found"))
     if not proof["ok"]:
         n += 1
